@@ -1,7 +1,7 @@
 (* C16 — Link blocks while healthy and returns the first fatal error when it ends.
    Model: Link.v (one endpoint, all schedules, all environment behaviours incl. faults,
    cancellations, garbage frames).  Only statements; proofs in LinkInv16.v. *)
-From Verif Require Import Base Link LinkProofs LinkInv16.
+From Verif Require Import Base Link LinkProofs LinkInv16 LinkInvE.
 
 (* Whatever Link returns is the error of the FIRST report (the first setErr whose store reached
    the slot) — never a later, consequential one, and never while no error has been reported:
@@ -48,3 +48,22 @@ Proof.
     vm_compute. reflexivity.
   - simpl. auto.
 Qed.
+
+(* ... and that first report is never the consequential 'closed' error of a call that was made on
+   the already ended link: in the repaired tree such a call fails without reporting anything
+   (C03 [call_after_end_fails]), so no report of ErrClosed is ever made.  D8: in the tree as found
+   it raced the failure that had ended the link for the fatal slot and could win. *)
+Theorem link_never_returns_closed :
+  forall calls s e,
+    lreachable fixed calls s -> In (EvLinkReturn e) (evs s) -> e <> EClosed /\ first_report (evs s) = Some e.
+Proof. exact link_never_returns_closed_lemma. Qed.
+Print Assumptions link_never_returns_closed.
+
+Theorem D8_refuted :
+  exists calls cs s,
+    lrun {| close_chan_on_free := false; res_unbuffered := false; decoder_send_unguarded := false;
+            overwrite_fatal := false; no_link_hooks := false; resolve_unchecked_nil := false;
+            convert_unchecked_nil := false; report_closed := true |} calls linit cs = Some s /\
+    In (EvLinkReturn EClosed) (evs s) /\ In (EvReport (EInj 1%N)) (evs s).
+Proof. exact D8_refuted_lemma. Qed.
+Print Assumptions D8_refuted.
